@@ -79,18 +79,16 @@ func (s *rrSegFetcher) doCheck() {
 	}
 
 	// we have a lock, so this has to break at some point
+	// Look at every stream at most once per check. (Stopping when the first
+	// stream visited comes round again is not enough: if that stream is
+	// complete it is removed below and never seen again, and the loop would
+	// spin for ever over streams that have nothing to send.)
 	var state *ConsumeState = nil
-	var first *ConsumeState = nil
-	for {
+	found := false
+	for i, n := 0, len(s.streams); i < n && !found; i++ {
 		state = s.next()
 		if state == nil {
 			return // nothing to do here
-		}
-
-		if first == nil {
-			first = state
-		} else if state == first {
-			return // we've gone full circle
 		}
 
 		if state.complete {
@@ -111,7 +109,10 @@ func (s *rrSegFetcher) doCheck() {
 			continue
 		}
 
-		break // found a state to work on
+		found = true // found a state to work on
+	}
+	if !found {
+		return // nothing to send for any stream
 	}
 
 	// update window parameters
